@@ -321,6 +321,46 @@ def settings_plain_get():
     return delay_ok, int(delay_default), t_ok, all(reads)
 
 
+def settings_accessors_plain():
+    """the public property `Settings.establish_communication_timeout`: the getter returns the stored attribute, the setter stores
+    the value it is given (no conversion: 0.8 s stays 0.8 s); `Timeouts` returns `self._data[name]` and defines no `__setattr__`"""
+    cls = G.find_class(G.parse("common/settings.py"), "Settings")
+    getter = setter = False
+    for item in cls.body:
+        if isinstance(item, ast.FunctionDef) and item.name == "establish_communication_timeout":
+            body = [st for st in item.body if not (isinstance(st, ast.Expr) and isinstance(st.value, ast.Constant))]
+            decos = [ast.unparse(d) for d in item.decorator_list]
+            if decos == ["property"]:
+                getter = len(body) == 1 and ast.unparse(body[0]) == "return self._establish_communication_timeout"
+            elif decos == ["establish_communication_timeout.setter"]:
+                arg = item.args.args[1].arg if len(item.args.args) == 2 else None
+                setter = len(body) == 1 and ast.unparse(body[0]) == f"self._establish_communication_timeout = {arg}"
+    tcls = G.find_class(G.parse("common/timeouts.py"), "Timeouts")
+    names = [i.name for i in tcls.body if isinstance(i, ast.FunctionDef)]
+    ga = next((i for i in tcls.body if isinstance(i, ast.FunctionDef) and i.name == "__getattr__"), None)
+    t_plain = "__setattr__" not in names and "__getattribute__" not in names and ga is not None \
+        and isinstance(ga.body[-1], ast.Return) and ast.unparse(ga.body[-1].value) == "self._data[name]"
+    return getter, setter, t_plain
+
+
+def enable_disable_order():
+    """gem/handler.py: `GemHandler.enable` enables the communication state machine BEFORE the protocol (a transport may bring
+    the link up from inside `protocol.enable()`: the `communicating` event must find the machine enabled), `disable` disables the
+    protocol first, then the machine"""
+    tree = G.parse("gem/handler.py")
+
+    def order(meth):
+        fn = G.P.find_function(tree, "GemHandler", meth)
+        calls = []
+        for st in fn.body:
+            if isinstance(st, ast.Expr) and isinstance(st.value, ast.Call):
+                d = G.P.dotted(st.value.func)
+                if d in (f"self._communication_state.{meth}", f"self.protocol.{meth}"):
+                    calls.append(d.split(".")[1])
+        return calls
+    return order("enable") == ["_communication_state", "protocol"], order("disable") == ["protocol", "_communication_state"]
+
+
 def lean_pairs(ps):
     return "[" + ", ".join(f"({s}, {f})" for s, f in ps) + "]"
 
@@ -402,6 +442,16 @@ def unit_Callbacks():
     out.append(f"def establishDelayDefault : Nat := {d_def}")
     out.append(f"def timeoutsPlainGet : Bool := {str(t_ok).lower()}")
     out.append(f"def timersReadSettings : Bool := {str(reads).lower()}\n")
+    g_ok, s_ok, tp_ok = settings_accessors_plain()
+    out.append("/-- the property `Settings.establish_communication_timeout`: getter = plain read, setter = plain store of the value given;")
+    out.append("`Timeouts.__getattr__` returns `self._data[name]`, no `__setattr__` -/")
+    out.append(f"def establishDelayGetterPlain : Bool := {str(g_ok).lower()}")
+    out.append(f"def establishDelaySetterPlain : Bool := {str(s_ok).lower()}")
+    out.append(f"def timeoutsAccessPlain : Bool := {str(tp_ok).lower()}\n")
+    en_ok, dis_ok = enable_disable_order()
+    out.append("/-- `GemHandler.enable`: communication state machine first, then the protocol; `disable`: protocol first, then the machine -/")
+    out.append(f"def enableStateMachineFirst : Bool := {str(en_ok).lower()}")
+    out.append(f"def disableProtocolFirst : Bool := {str(dis_ok).lower()}\n")
     spt = send_put_before_trigger()
     out.append("/-- `Protocol.send_message`: the block is queued before the protocol thread is triggered -/")
     out.append(f"def sendPutBeforeTrigger : Bool := {str(spt).lower()}\n")
@@ -414,7 +464,9 @@ def unit_Callbacks():
                             "replyRequired": req, "streamsWithF0": sorted({s for s, f, _, _ in cat if f == 0}),
                             "unknownReply": list(unk[0]), "abortFunction": ab[0][1], "protocolHooks": proto, "commWiring": wiring,
                             "dispatch": rows, "linkLossStates": loss, "waiterRepliesOnly": wro, "sendPutBeforeTrigger": spt, "establishDelayPlainGet": d_ok, "establishDelayDefault": d_def,
-                            "timeoutsPlainGet": t_ok, "timersReadSettings": reads, "registeredFirst": reg_first,
+                            "timeoutsPlainGet": t_ok, "timersReadSettings": reads,
+                            "establishDelayGetterPlain": g_ok, "establishDelaySetterPlain": s_ok, "timeoutsAccessPlain": tp_ok,
+                            "enableStateMachineFirst": en_ok, "disableProtocolFirst": dis_ok, "registeredFirst": reg_first,
                             "containsEither": either, "unknownIffNoCallback": only_contains}
 
 
